@@ -256,17 +256,40 @@ type CheckPremiumAmount struct {
 	next Action
 }
 
+// checkPremiumRange makes sure that amount + premium is a representable,
+// non-negative amount. The claim and opening amounts are computed as
+// uint64(int64(amount) + premium); an extreme premium (e.g. MinInt64) would
+// wrap around there and so slip below any premium limit.
+func checkPremiumRange(amountSat uint64, premiumSat int64) error {
+	if amountSat > math.MaxInt64 {
+		return fmt.Errorf("swap amount is too large: %d", amountSat)
+	}
+	if premiumSat < 0 && (premiumSat == math.MinInt64 || uint64(-premiumSat) > amountSat) {
+		return fmt.Errorf("premium %d exceeds the swap amount %d", premiumSat, amountSat)
+	}
+	if premiumSat > 0 && uint64(premiumSat) > math.MaxInt64-amountSat {
+		return fmt.Errorf("premium %d overflows the swap amount %d", premiumSat, amountSat)
+	}
+	return nil
+}
+
 func (v *CheckPremiumAmount) Execute(services *SwapServices, swap *SwapData) EventType {
 	if swap.SwapInAgreement != nil {
 		if swap.SwapInAgreement.Premium > swap.SwapInRequest.PremiumLimit {
 			return swap.HandleError(fmt.Errorf("premium amt too high: %d, limit : %d",
 				swap.SwapInAgreement.Premium, swap.SwapInRequest.PremiumLimit))
 		}
+		if err := checkPremiumRange(swap.SwapInRequest.Amount, swap.SwapInAgreement.Premium); err != nil {
+			return swap.HandleError(err)
+		}
 		return v.next.Execute(services, swap)
 	} else if swap.SwapOutAgreement != nil {
 		if swap.SwapOutAgreement.Premium > swap.SwapOutRequest.PremiumLimit {
 			return swap.HandleError(fmt.Errorf("premium amt too high: %d, limit : %d",
 				swap.SwapOutAgreement.Premium, swap.SwapOutRequest.PremiumLimit))
+		}
+		if err := checkPremiumRange(swap.SwapOutRequest.Amount, swap.SwapOutAgreement.Premium); err != nil {
+			return swap.HandleError(err)
 		}
 		return v.next.Execute(services, swap)
 	}
